@@ -53,6 +53,12 @@ def DefNamesUnique (d : Design) : Prop :=
 
 instance (d : Design) : Decidable (DefNamesUnique d) := by unfold DefNamesUnique; infer_instance
 
+/-- definitions of one library carry pairwise different `EDIF.identifier` entries, compared
+    case-insensitively (what the EDIF naming policy enforces among siblings) -/
+def DefEidsUnique (d : Design) : Prop :=
+  ∀ i ∈ List.range d.ndefs, ∀ j ∈ List.range d.ndefs, i ≠ j → (d.defs i).lib = (d.defs j).lib →
+    ∀ a b, (d.defs i).eid = some a → (d.defs j).eid = some b → lowerStr a ≠ lowerStr b
+
 /-! ## Preconditions of flatten -/
 
 def allInsts (d : Design) : List Inst := (List.range d.ndefs).flatMap (fun i => (d.defs i).children)
@@ -73,10 +79,14 @@ instance (d : Design) : Decidable (IdsUnique d) := by unfold IdsUnique; infer_in
 
 def idsUniqueCheck (d : Design) : Bool := decide (IdsUnique d)
 
-/-- every instance and cable has a non-empty name without `/` -/
+/-- every instance and cable has a non-empty name (flatten concatenates names; the empty parent name
+    is its "no prefix" sentinel).  Names may contain `/`; what the implementation additionally needs
+    — it refuses a duplicate sibling name in `add_child` / `add_cable`, an exception the model does
+    not have — is that the slash-joined path names of all instance occurrences and of all cables are
+    pairwise distinct, which the harness checks on every input (`joined_name_collisions`). -/
 def goodName : Option String → Bool
   | none => false
-  | some s => s != "" && !(s.toList.contains '/')
+  | some s => s != ""
 
 def Named (d : Design) : Prop :=
   (∀ c ∈ allInsts d, goodName c.name = true) ∧ (∀ c ∈ allCables d, goodName c.name = true)
